@@ -177,6 +177,9 @@ def owner1(ctx, prog, cfg):
     from .. import drainrules
 
     drainrules.drnview1(ctx, prog, cfg, "OWNER1")
+    drainrules.backfill2(ctx, prog, cfg, "OWNER1")
+    # while a Drain exists the header claims nothing: a leaked drain cannot make the buffer destroy yielded elements again
+    drainrules.drn1_abcf(ctx, prog, cfg, "OWNER1")
     # each element is moved out at most once: what next/next_back hand out is read(i) for exactly the index the
     # range iterator just produced, and the drain's index iterator is advanced by nothing else
     drainrules.drainit1(ctx, prog, cfg, "OWNER1")
